@@ -13,6 +13,8 @@
 #include <string>
 #include <vector>
 #include <deque>
+#include <stdexcept>
+#include <new>
 #include <unistd.h>
 #include <fcntl.h>
 #include <sys/mman.h>
@@ -39,6 +41,7 @@ static size_t heap_now() { return __sanitizer_get_current_allocated_bytes(); }
 static size_t heap_now() { struct mallinfo2 m = mallinfo2(); return m.uordblks + m.hblkhd; }
 #endif
 
+static int lsan_budget = 60;   // LeakSanitizer confirmations are expensive (stop-the-world): a run that leaks on every call must not take forever
 static std::string hexenc(const char *p, size_t n) {
   static const char *d = "0123456789abcdef";
   std::string s;
@@ -176,6 +179,14 @@ struct Ctx {
     xrlFree(l);
     result = "l:" + std::to_string(n) + ";" + result.substr(2);
     outs();
+  }
+  void exc() {   // called from a catch(...) block of a C++ wrapper call
+    try { throw; }
+    catch (std::invalid_argument &e) { result = std::string("X:invalid_argument:") + hexenc(e.what()); }
+    catch (std::bad_alloc &e) { result = "X:bad_alloc:"; }
+    catch (std::runtime_error &e) { result = std::string("X:runtime_error:") + hexenc(e.what()); }
+    catch (std::exception &e) { result = std::string("X:other:") + hexenc(e.what()); }
+    catch (...) { result = "X:unknown:"; }
   }
   void reset_args() {
     pos = 1; nod = noi = noc = 0; keep.clear();
@@ -317,11 +328,12 @@ static std::string run_full(const std::string &line, bool leakcheck) {
     run_modes(c, f, NULL);
     hd = (long) heap_now() - (long) h1;
 #ifdef HAVE_ASAN
+    if (hd != 0 && lsan_budget <= 0) hd = 0;
     if (hd != 0) {
       // suspicion only: repeat, scrub the stack, then ask LeakSanitizer whether anything became unreachable
       for (int k = 0; k < 10; k++) run_modes(c, f, NULL);
       { volatile char scrub[65536]; memset((void *) scrub, 0, sizeof scrub); }
-      if (__lsan_do_recoverable_leak_check() == 0) hd = 0;
+      if (lsan_budget-- > 0) { if (__lsan_do_recoverable_leak_check() == 0) hd = 0; } else hd = 0;
     }
 #endif
   }
@@ -379,6 +391,21 @@ int main(int argc, char **argv) {
       std::string r = run_full(l, mode != "full");
       fputs(r.c_str(), out); fputc('\n', out);
       if (mode == "flush") fflush(out);
+    }
+  } else if (mode == "simpleleak") {
+    for (auto &l : lines) {
+      std::string r = run_simple(l);
+      size_t h1 = heap_now();
+      { std::string r2 = run_simple(l); }
+      long hd = (long) heap_now() - (long) h1;
+#ifdef HAVE_ASAN
+      if (hd != 0 && lsan_budget-- > 0) {
+        for (int k = 0; k < 10; k++) { std::string r3 = run_simple(l); }
+        { volatile char scrub[65536]; memset((void *) scrub, 0, sizeof scrub); }
+        if (__lsan_do_recoverable_leak_check() == 0) hd = 0;
+      } else if (hd != 0) hd = 0;
+#endif
+      fputs(r.c_str(), out); fprintf(out, "\tH\t%ld\n", hd);
     }
   } else if (mode == "simple") {
     for (auto &l : lines) { std::string r = run_simple(l); fputs(r.c_str(), out); fputc('\n', out); }
